@@ -890,6 +890,10 @@ class ViewRepresentation(OperatorPlatform, abc.ABC):
             raise ValueError("must select at least one column")
         if columns == self.column_names:
             return self
+        unknown = set(columns) - set(self.column_names)
+        if len(unknown) > 0:
+            # check here: the collapsing below re-selects from an earlier node that may still have the column
+            raise KeyError("selecting unknown columns " + str(unknown))
         if self.is_trivial_when_intermediate_():
             return self.sources[0].select_columns(columns)
         if isinstance(self, SelectColumnsNode):
